@@ -150,6 +150,8 @@ class Server:
             'reply_delay': None,       # seconds slept before every send (engine B only)
             'probe_faults': None,      # {host-key name asked for by the client: fault applied to that KEXDH reply}
             'rate': 'normal',          # behaviour towards non-blocking (rate-test) connections
+            'chatter': None,           # {message kind: n}: n SSH_MSG_DEBUG packets in front of every message of that kind (legal at any time, RFC 4253 11.3)
+            'check_e': True,           # validate the client's public DH value against the group in use, as servers do (0 < e < p), and disconnect otherwise
         }
 
     def __init__(self, spec=None, **kw):
@@ -294,6 +296,9 @@ class Conn:
             return
         f = fault_override if fault_override is not None else self.server.fault_for(what, self.idx)
         data, after = apply_fault(f, data, payload)
+        n_dbg = (self.server.spec.get('chatter') or {}).get(what, 0)
+        if n_dbg and data and payload is not None:
+            data = wire.pkt(b'\x04\x01' + wire.sstr(b'chatter before %s' % what.encode()) + wire.sstr(b'en')) * n_dbg + data
         if data:
             self.out += data
             self.emitted.append((what, bytes(data)))
@@ -349,6 +354,8 @@ class Conn:
         elif t == 30:   # KEXDH_INIT
             self.kex_exchanges += 1
             srv.log.append((self.idx, 'kexdh_init', None))
+            if srv.spec.get('check_e') and not self.valid_dh_value(payload, None):
+                return
             blob = self.pick_hostkey()
             if blob is None:
                 self.closed_by_server = True
@@ -369,15 +376,44 @@ class Conn:
                 self.closed_by_server = True
                 return
             srv.log.append((self.idx, 'gex_group', m))
+            self.gex_p = wire.rsa_modulus(m)
             p = wire.gex_group(wire.rsa_modulus(m))
             self.emit('gex_group', wire.pkt(p), p)
         elif t == 32:   # GEX_INIT
             srv.log.append((self.idx, 'gex_init', None))
+            if srv.spec.get('check_e') and not self.valid_dh_value(payload, getattr(self, 'gex_p', None)):
+                return
             blob = self.pick_hostkey()
             if blob is None:
                 blob = wire.ed25519_blob()
             p = wire.kexdh_reply(blob, msg=33)
             self.emit('gex_reply', wire.pkt(p), p)
+
+    FIXED_GROUP_BITS = {'diffie-hellman-group1-sha1': 1024, 'diffie-hellman-group14-sha1': 2048, 'diffie-hellman-group14-sha256': 2048, 'diffie-hellman-group16-sha512': 4096, 'diffie-hellman-group18-sha512': 8192}
+
+    def valid_dh_value(self, payload, p):
+        """What a real server does with the client's public value: it must lie inside the group in use (for the fixed
+        groups the bound is taken as 2^bits), otherwise SSH_MSG_DISCONNECT and the connection is gone."""
+        kex = self.ckex[0] if self.ckex else ''
+        ok = True
+        try:
+            if p is not None or kex in self.FIXED_GROUP_BITS:
+                n = struct.unpack('>I', payload[1:5])[0]
+                body = payload[5:5 + n]
+                if len(body) != n or n == 0 or (body[0] & 0x80):
+                    ok = False
+                else:
+                    e = int.from_bytes(body, 'big')
+                    # (the scripted groups are not safe primes, so 1 and p-1 do turn up as honest values; they are let through)
+                    ok = 0 < e < (p if p is not None else (1 << self.FIXED_GROUP_BITS[kex]))
+        except (struct.error, IndexError):
+            ok = False
+        if not ok:
+            self.server.log.append((self.idx, 'bad-dh-value', None))
+            d = b'\x01' + struct.pack('>I', 3) + wire.sstr(b'bad client public DH value') + wire.sstr(b'')
+            self.emit('disconnect', wire.pkt(d), d)
+            self.closed_by_server = True
+        return ok
 
     def pick_hostkey(self):
         for k in self.ckey:
